@@ -56,6 +56,40 @@ def _acquire_release(st: ast.AST) -> tuple[str, str] | None:
     return None
 
 
+def _root_stable(prog: Program, ctx, cp, attr: str | None) -> tuple[bool, str]:  # noqa: ANN001
+    """self.<attr> denotes the same mapping in a context and in every context copied from it: it is set only in
+    __init__ (from a dedicated parameter, falling back to the context's own globals for a root context) and every
+    construction in copy() hands it on as it is."""
+    if attr is None:
+        return False, "no attribute"
+    init = ctx.methods.get("__init__")
+    if init is None:
+        return False, "RenderContext.__init__ missing"
+    stores = []
+    for mod in prog.modules.values():
+        for n in ast.walk(mod.tree):
+            if isinstance(n, (ast.Assign, ast.AugAssign, ast.AnnAssign)):
+                tg = n.targets if isinstance(n, ast.Assign) else [n.target]
+                for t in tg:
+                    if isinstance(t, ast.Attribute) and t.attr == attr and root_name(t) in ("self", "ctx", "context", "macro_context"):
+                        stores.append((mod, n))
+    if len(stores) != 1 or prog.enclosing_function(stores[0][0], stores[0][1]) is not init:
+        return False, f"self.{attr} is stored {len(stores)} time(s) / outside __init__: in a copied context it is that copy's own chain (namespace + caller), not the root's global data"
+    v = stores[0][1].value
+    params = set(init.params())
+    names = {x.id for x in ast.walk(v) if isinstance(x, ast.Name)}
+    param = next(iter(names & params), None)
+    dedicated = isinstance(v, ast.IfExp) and param is not None and norm(v.body) == param and norm(v.orelse) == "self.globals" and param != "global_data"
+    if not dedicated:
+        return False, f"self.{attr} = {norm(v)} is not `<own parameter> if given else self.globals`"
+    for c in ast.walk(cp.node):
+        if isinstance(c, ast.Call) and isinstance(c.func, ast.Attribute) and c.func.attr == "__class__":
+            kw = {k.arg: k.value for k in c.keywords}
+            if param not in kw or norm(kw[param]) != f"self.{attr}":
+                return False, f"a construction in copy() does not pass {param}=self.{attr}"
+    return True, ""
+
+
 def run(prog: Program, res: Result) -> None:  # noqa: PLR0912, PLR0915
     res.explanation = (
         "R1 runs a may-hold typestate (resources: pushed scope, appended loop, swapped template) over the CFG of every "
@@ -98,7 +132,7 @@ def run(prog: Program, res: Result) -> None:  # noqa: PLR0912, PLR0915
                 res.fail("C07.R2", file=mod.relpath, line=n.lineno, qualname=prog.qual_at(mod, n), construct=n, message="manual __enter__/__exit__ on a render context manager", what="no manual __enter__")
 
     # ------------------------------------------------------------------ R3 isolation wiring
-    res.rule("C07.R3", "copy() without block_scope sees only the namespace and self.globals and inherits disabled tags; render/call render everything through the copy, with `include` disabled")
+    res.rule("C07.R3", "copy() without block_scope sees only the namespace and the root context's global data (an attribute handed on unchanged by every copy) and inherits disabled tags; render/call render everything through the copy, with `include` disabled")
     cp = ctx.methods.get("copy")
     if cp is None:
         raise AnalysisError("RenderContext.copy vanished")
@@ -118,11 +152,13 @@ def run(prog: Program, res: Result) -> None:  # noqa: PLR0912, PLR0915
             iso.append(c)
             what = "isolated child: global_data built from the namespace and self.globals only"
             leaked = sorted({n.attr for n in ast.walk(gd) if isinstance(n, ast.Attribute) and is_self_attr(n) and n.attr in ("scope", "locals", "counters", "tag_namespace", "loops")}) if gd is not None else ["<missing>"]
-            ok = gd is not None and norm(gd) == "ReadOnlyChainMap(namespace, self.globals)"
-            if ok:
-                res.ok("C07.R3", f"{cp.file}:{c.lineno} RenderContext.copy", what, f"global_data={norm(gd)}")
+            shape = isinstance(gd, ast.Call) and norm(gd.func) == "ReadOnlyChainMap" and len(gd.args) == 2 and norm(gd.args[0]) == "namespace" and is_self_attr(gd.args[1])
+            g_attr = gd.args[1].attr if shape else None
+            stable, why_not = _root_stable(prog, ctx, cp, g_attr) if shape else (False, "global_data is not ReadOnlyChainMap(namespace, self.<attr>)")
+            if shape and stable:
+                res.ok("C07.R3", f"{cp.file}:{c.lineno} RenderContext.copy", what, f"global_data={norm(gd)}; self.{g_attr} is the root's global data in every context")
             else:
-                res.fail("C07.R3", file=cp.file, line=c.lineno, qualname="RenderContext.copy", construct=f"isolated copy global_data={norm(gd) if gd is not None else '<missing>'}", message=f"the isolated child context can see the caller's {leaked or 'state'}: render/macro bodies read the caller's variables", what=what)
+                res.fail("C07.R3", file=cp.file, line=c.lineno, qualname="RenderContext.copy", construct=f"isolated copy global_data={norm(gd) if gd is not None else '<missing>'}", message=f"the isolated child context can see more than global data and its own arguments ({why_not}{'; caller ' + str(leaked) if leaked else ''}): a partial rendered from a partial, or a partial/macro used inside an overriding block, reads its caller's arguments or variables", what=what)
         # disabled tags are inherited
         dt = kw.get("disabled_tags")
         what = "child context inherits the parent's disabled tags"
